@@ -62,6 +62,9 @@ def case_strategy(draw, max_ops=25):
         op = {"op": k}
         if k == "advance":
             op["dt"] = draw(st.sampled_from(DTS))
+        if k == "s1f14_refuse":
+            # any COMMACK other than one byte 0: non-zero values, or an item without any byte (still not "COMMACK = 0")
+            op["commack"] = draw(st.sampled_from([1, 1, 2, 64, 255, "empty"]))
         ops.append(op)
     # most histories start by getting somewhere interesting
     start = draw(st.sampled_from(["none", "up", "up", "restart-in-wait-delay", "restart-in-wait-cra", "restart-after-t3"]))
@@ -280,8 +283,8 @@ def run_case(case, observe=None):
                 if not src:
                     continue
                 s, t_sent = src[-1]
-                commack = 1 if k == "s1f14_refuse" else 0
-                item = (L, [(B, bytes([commack])), (L, [] if role == "equipment" else [(A, b"peer"), (A, b"1.0")])])
+                commack = op.get("commack", 1) if k == "s1f14_refuse" else 0
+                item = (L, [(B, b"" if commack == "empty" else bytes([commack])), (L, [] if role == "equipment" else [(A, b"peer"), (A, b"1.0")])])
                 rig.send_sf(1, 14, 0, item, system=s)
                 if k == "s1f14_old":
                     stats["late_s1f14"] += 1
